@@ -218,7 +218,10 @@ class _LoopBase:
         c = cur()
         if mode == "prove":
             ns.__dict__["q"] = Namespace({n: sp.fresh(c.fresh_name(f"L{self.k}.any.{n}")) for n, sp in self.spec.forall.items()})
-            return self.spec.invariant(ns)
+            r = self.spec.invariant(ns)
+            if isinstance(r, (list, tuple)):
+                return wrap_bool(tm.And(*[B(x) for x in r]))
+            return r
         # assume: for all values of the quantified variables
         bound = []
         qvals = {}
@@ -231,14 +234,24 @@ class _LoopBase:
         ob0, tr0 = len(c.obligations), len(c.trace)
         c.nofork += 1
         try:
-            body = B(self.spec.invariant(ns))
+            res = self.spec.invariant(ns)
         finally:
             c.nofork -= 1
             del c.obligations[ob0:]
             del c.trace[tr0:]
         side = c.pc[n0:]
         del c.pc[n0:]
-        return wrap_bool(tm.ForAll(bound, tm.And(*side, body)))
+        if not isinstance(res, (list, tuple)):
+            return wrap_bool(tm.ForAll(bound, tm.And(*side, B(res))))
+        # a conjunction given as a list: one quantified formula per conjunct (and per side fact, each of which
+        # is an instance of a sound axiom), over the bound variables that occur in it
+        import re as _re
+
+        def close(t):
+            used = [(n, s_) for n, s_ in bound if _re.search(r"(?<![\w.!])" + _re.escape(n) + r"(?![\w.!])", t.s)]
+            return tm.ForAll(used, t) if used else t
+
+        return wrap_bool(tm.And(*[close(B(x)) for x in list(side) + list(res)]))
 
     def havoc(self, name, value):
         c = cur()
@@ -721,15 +734,15 @@ class RT:
                 del c.obligations[ob0:]
                 del c.trace[tr0:]
             return fq
-        if kind == "set":
-            return _set_comp(f, q, cond)
-        if kind == "dict":
-            return _dict_comp(f, q, cond)
         hook = cur().data.get("comp_hook")
         if hook is not None:
             r = hook(kind, f, q, cond)
             if r is not NotImplemented:
                 return r
+        if kind == "set":
+            return _set_comp(f, q, cond)
+        if kind == "dict":
+            return _dict_comp(f, q, cond)
         raise Unsupported(f"{kind} comprehension over a symbolic iterable")
 
     # loops
@@ -977,7 +990,9 @@ def _seq_concat(a, b):
             raise Unsupported("concatenation of sequences whose elements cannot be merged")
         return m
 
-    return SymSeq(elem, tm.Add(la, b.length), name=f"({a.name}+{b.name})")
+    q = SymSeq(elem, tm.Add(la, b.length), name=f"({a.name}+{b.name})")
+    q.parts = (a, b)  # every element of a part is an element of the concatenation
+    return q
 
 
 def _seq_rconcat(a, b):
@@ -1296,3 +1311,43 @@ BUILTIN_OVERRIDES["type"] = v_type
 for _k, _real in (("int", int), ("bool", bool), ("str", str), ("bytes", bytes), ("dict", dict),
                   ("set", set), ("list", list)):
     BUILTIN_OVERRIDES[_k].__vc_real__ = _real
+
+
+def seq_member_t(q, p) -> tm.T:
+    """`p in q` for a symbolic sequence, as exists j. 0 <= j < len(q) and q[j] == p.  Instance facts that
+    evaluating q[j] produces (they hold for every j) are assumed universally."""
+    c = cur()
+    jv = tm.Var(c.fresh_name("j!bound"), INT)
+    n0 = len(c.pc)
+    ob0, tr0 = len(c.obligations), len(c.trace)
+    c.nofork += 1
+    try:
+        x = q.elem(jv)
+    finally:
+        c.nofork -= 1
+        del c.obligations[ob0:]
+        del c.trace[tr0:]
+    side = c.pc[n0:]
+    del c.pc[n0:]
+    if side:
+        c.pc.append(tm.ForAll([(jv.s, INT)], tm.And(*side)))
+    return tm.Exists([(jv.s, INT)], tm.And(tm.Le(tm.mk_int(0), jv), tm.Lt(jv, q.length), B(sym.sym_eq(x, p))))
+
+
+def quantified(bound, body_fn):
+    """forall bound. side(bound) => body, where evaluating body_fn (element accesses of symbolic sequences with the
+    bound variables) may record instance facts `side`; they hold for every value, so they are assumed under the
+    same quantifier and never leak a bound variable into the path condition."""
+    c = cur()
+    n0 = len(c.pc)
+    ob0, tr0 = len(c.obligations), len(c.trace)
+    c.nofork += 1
+    try:
+        body = B(body_fn())
+    finally:
+        c.nofork -= 1
+        del c.obligations[ob0:]
+        del c.trace[tr0:]
+    side = c.pc[n0:]
+    del c.pc[n0:]
+    return tm.ForAll(bound, tm.Implies(tm.And(*side), body) if side else body)
